@@ -667,8 +667,9 @@ func transformationID(currentID int, transformationName string) int {
 	transformationIDsLock.Lock()
 	defer transformationIDsLock.Unlock()
 
-	currName := transformationIDToName[currentID]
-	nextName := fmt.Sprintf("%s+%s", currName, transformationName)
+	// the chain is identified by (id of its prefix, name of its last transformation): unlike a
+	// "+"-joined list of names this cannot collide with a single name that itself contains "+"
+	nextName := fmt.Sprintf("%d+%s", currentID, transformationName)
 	if id, ok := transformationNameToID[nextName]; ok {
 		return id
 	}
